@@ -28,10 +28,18 @@ func c15BlsAll(c *Ctx) {
 	// random x is outside with overwhelming probability; the Lean side re-checks non-membership.
 	var badG1 []*bls12381.PointG1
 	for len(badG1) < 2 {
+		// built on the implementation layer: G1.FromAffineX itself refuses points outside the subgroup
 		x := bls12381.NewG1BaseField().FromUint64(uint64(1 + r.IntN(1<<30)))
-		p, err := cBLSG1.FromAffineX(x, r.IntN(2) == 0)
-		if err == nil && !p.IsTorsionFree() {
-			badG1 = append(badG1, p)
+		var p bls12381.PointG1
+		if ok := p.V.SetFromAffineX(&x.V); ok != 1 {
+			continue
+		}
+		q := &p
+		if r.IntN(2) == 0 {
+			q = p.Neg()
+		}
+		if !q.IsTorsionFree() {
+			badG1 = append(badG1, q)
 		}
 	}
 	var badG2 []*bls12381.PointG2
